@@ -90,7 +90,10 @@ class StepRegistry(object):
 
     @staticmethod
     def same_step_definition(step, other_pattern, other_location):
-        return (step.pattern == other_pattern and
+        # -- HINT: Some matchers decorate the pattern (like: "^...$").
+        same_pattern = (step.pattern == other_pattern or
+                        getattr(step, "raw_pattern", None) == other_pattern)
+        return (same_pattern and
                 step.location == other_location and
                 other_location.filename != "<string>")
 
